@@ -16,6 +16,7 @@ import (
 	"sync/atomic"
 	"time"
 
+	"github.com/smartcontractkit/chainlink-automation/pkg/v3/stores"
 	"github.com/smartcontractkit/chainlink-automation/pkg/v3/tickers"
 )
 
@@ -130,6 +131,37 @@ func (s *onceSvc) Close() error                    { return s.tk.Close() }
 func (s *onceSvc) armPanic()                       { s.preq.Store(true) }
 func (s *onceSvc) armRet()                         {}
 func (s *onceSvc) kill()                           { _ = s.tk.Close() }
+
+// ---- resultstore: the real result store of pkg/v3/stores, the one service of the plug-in whose Close leaves a
+// request behind for a Start that has not reached its loop yet (the model's KSticky).  It cannot be made to panic
+// or to return on its own, so its cases use start and call only; kill cancels the contexts its Starts run under.
+type rsSvc struct {
+	st interface {
+		Start(context.Context) error
+		Close() error
+	}
+	mu      sync.Mutex
+	cancels []context.CancelFunc
+}
+
+func newRS() *rsSvc { return &rsSvc{st: stores.New(log.New(io.Discard, "", 0))} }
+func (s *rsSvc) Start(ctx context.Context) error {
+	c, cancel := context.WithCancel(ctx)
+	s.mu.Lock()
+	s.cancels = append(s.cancels, cancel)
+	s.mu.Unlock()
+	return s.st.Start(c)
+}
+func (s *rsSvc) Close() error { return s.st.Close() }
+func (s *rsSvc) armPanic()    {}
+func (s *rsSvc) armRet()      {}
+func (s *rsSvc) kill() {
+	s.mu.Lock()
+	for _, c := range s.cancels {
+		c()
+	}
+	s.mu.Unlock()
+}
 
 // ---- fresh / sticky
 type scripted struct {
